@@ -196,8 +196,19 @@ def recipe(draw, forms=None):
     r["idx"] = draw(st.integers(0, r["n_in"] - 1))
     r["amount"] = draw(st.sampled_from([0, 1, 100000, 21 * 10**14]))
     if form in ("bare", "p2sh", "p2wsh", "p2sh_p2wsh", "tapscript"):
-        r["unlock"] = draw(st.lists(data_item(), max_size=4))
-        r["script"] = draw(script_items(tapscript=tap, depth0=len(r["unlock"])))
+        tmpl = draw(st.sampled_from(["grammar", "grammar", "grammar", "if-truth", "family"]))
+        if tmpl == "if-truth":
+            # (non-)minimal truth values into IF/NOTIF: MINIMALIF is policy in P2WSH, consensus in tapscript, nothing elsewhere
+            r["unlock"] = [["push", draw(st.sampled_from(TRUTHS))]]
+            r["script"] = [["op", draw(st.sampled_from(["OP_IF", "OP_NOTIF"]))], ["num", 1], ["op", "OP_ELSE"], ["num", 1], ["op", "OP_ENDIF"]]
+        elif tmpl == "family":
+            pc = draw(program_case())
+            r["unlock"] = [["push", x] for x in pc["stack"]][:4]
+            r["script"] = pc["script"] if pc["family"] != "limits" else [["num", 1]]
+            r["version"], r["lock_time"], r["sequence"] = pc["version"], pc["lock_time"], pc["sequence"]
+        else:
+            r["unlock"] = draw(st.lists(data_item(), max_size=4))
+            r["script"] = draw(script_items(tapscript=tap, depth0=len(r["unlock"])))
         # optionally weave signature checks into the script
         nsig = draw(st.sampled_from([0, 0, 1, 1, 2]))
         for s in range(nsig):
@@ -377,7 +388,7 @@ def materialize(r: dict):
 
     if form in ("bare", "p2sh", "p2wsh", "p2sh_p2wsh", "tapscript"):
         tap = form == "tapscript"
-        script = b"".join(item_bytes(x, tap) for x in r["script"])
+        script = program_bytes(r["script"])
         code = after_codesep(script, r.get("codesep", 0))
         if form in ("bare", "p2sh"):
             dg = legacy_digest(code)
@@ -579,3 +590,84 @@ def _p2sh_scriptsig(prog: bytes, variant: str) -> bytes:
     if variant == "empty":
         return b""
     return cs.push_data(prog)
+
+
+# ------------------------------------------------------------------ single-script programs (for the final-stack oracle)
+ARITH1 = ["OP_1ADD", "OP_1SUB", "OP_NEGATE", "OP_ABS", "OP_NOT", "OP_0NOTEQUAL", "OP_SIZE", "OP_IFDUP", "OP_RIPEMD160", "OP_SHA1", "OP_SHA256", "OP_HASH160", "OP_HASH256", "OP_VERIFY", "OP_DUP", "OP_DROP", "OP_TOALTSTACK"]
+ARITH2 = ["OP_ADD", "OP_SUB", "OP_BOOLAND", "OP_BOOLOR", "OP_NUMEQUAL", "OP_NUMEQUALVERIFY", "OP_NUMNOTEQUAL", "OP_LESSTHAN", "OP_GREATERTHAN", "OP_LESSTHANOREQUAL",
+          "OP_GREATERTHANOREQUAL", "OP_MIN", "OP_MAX", "OP_EQUAL", "OP_EQUALVERIFY", "OP_SWAP", "OP_NIP", "OP_OVER", "OP_TUCK", "OP_2DUP", "OP_2DROP", "OP_PICK", "OP_ROLL"]
+ARITH3 = ["OP_WITHIN", "OP_ROT", "OP_3DUP"]
+STACKN = ["OP_2OVER", "OP_2ROT", "OP_2SWAP", "OP_DEPTH", "OP_PICK", "OP_ROLL", "OP_FROMALTSTACK"]
+SMALL = [-2, -1, 0, 1, 2, 3, 2**31 - 1, -(2**31) + 1, 2**31, 127, 128, -128]
+TRUTHS = ["", "00", "80", "0000", "0080", "01", "02", "0100", "0101", "81", "ff"]
+
+
+@st.composite
+def program_case(draw):
+    fam = draw(st.sampled_from(["arith1", "arith2", "arith3", "stackn", "locktime", "if", "limits", "grammar", "grammar"]))
+    case = {"family": fam, "segwit": draw(st.booleans()), "flags": draw(flags_strategy()), "version": draw(st.sampled_from([1, 2, 2, 0, 3, 0xFFFFFFFF])),
+            "lock_time": draw(st.sampled_from([0, 1, 17, 499999999, 500000000, 500000001, 0xFFFFFFFF])), "sequence": draw(st.sampled_from([0xFFFFFFFF, 0xFFFFFFFE, 0, 1, 17, 0x400000, 0x400011, 0x80000000, 0xFFFF]))}
+    num = st.one_of(st.sampled_from(SMALL), st.integers(-5, 5))
+    val = st.one_of(num.map(lambda n: ["num", n]), st.sampled_from(TRUTHS).map(lambda h: ["push", h]), st.binary(max_size=6).map(lambda b: ["push", b.hex()]))
+    if fam == "arith1":
+        case["stack"], case["script"] = [], [draw(val), ["op", draw(st.sampled_from(ARITH1))]]
+    elif fam == "arith2":
+        case["stack"], case["script"] = [], [draw(val), draw(val), ["op", draw(st.sampled_from(ARITH2))]]
+    elif fam == "arith3":
+        case["stack"], case["script"] = [], [draw(val), draw(val), draw(val), ["op", draw(st.sampled_from(ARITH3))]]
+    elif fam == "stackn":
+        k = draw(st.integers(0, 7))
+        case["stack"] = [bytes([0x10 + j]).hex() for j in range(k)]
+        case["script"] = ([["num", draw(st.integers(-1, k + 1))]] if draw(st.booleans()) else []) + [["op", draw(st.sampled_from(STACKN))]]
+    elif fam == "locktime":
+        n = draw(st.one_of(st.sampled_from([0, 1, 17, 499999999, 500000000, 500000001, 0x400000, 0x400011, 0x80000000, 0xFFFFFFFF, -1, 2**32, 0xFFFF, 2**39]), st.integers(0, 20)))
+        case["stack"], case["script"] = [], [["num", n], ["op", draw(st.sampled_from(["OP_CHECKLOCKTIMEVERIFY", "OP_CHECKSEQUENCEVERIFY"]))]]
+    elif fam == "if":
+        body = [["op", draw(st.sampled_from(["OP_IF", "OP_NOTIF"]))], ["num", 1], ["op", "OP_ELSE"], ["num", 2], ["op", "OP_ENDIF"]]
+        case["stack"] = [draw(st.sampled_from(TRUTHS))]
+        case["script"] = body
+    elif fam == "limits":
+        kind = draw(st.sampled_from(["ops", "ops-multisig", "push-size", "stack-size", "script-size", "multisig-keys", "altstack-size"]))
+        case["limit_kind"] = kind
+        case["stack"] = []
+        if kind == "ops":
+            case["script"] = [["repeat", draw(st.sampled_from([199, 200, 201, 202])), ["op", "OP_NOP"]], ["num", 1]]
+        elif kind == "ops-multisig":
+            nk = draw(st.sampled_from([1, 3, 20]))
+            # 0 0 <nk keys> nk CHECKMULTISIG counts nk+1 ops
+            case["script"] = [["repeat", draw(st.sampled_from([199, 200, 201])) - nk, ["op", "OP_NOP"]], ["num", 0], ["num", 0], ["repeat", nk, ["push", "02" + "11" * 32]], ["num", nk], ["op", "OP_CHECKMULTISIG"]]
+        elif kind == "push-size":
+            case["script"] = [["push", "aa" * draw(st.sampled_from([519, 520, 521]))], ["op", draw(st.sampled_from(["OP_DROP", "OP_SIZE"]))], ["num", 1]]
+            if draw(st.booleans()):  # the same inside a branch nothing takes
+                case["script"] = [["num", 0], ["op", "OP_IF"]] + case["script"][:1] + [["op", "OP_ENDIF"], ["num", 1]]
+        elif kind == "stack-size":
+            case["script"] = [["repeat", draw(st.sampled_from([999, 1000, 1001])), ["num", 1]]]
+        elif kind == "altstack-size":
+            n = draw(st.sampled_from([999, 1000, 1001]))
+            case["script"] = [["repeat", n // 2, ["num", 1]], ["repeat", n // 2, ["op", "OP_TOALTSTACK"]], ["repeat", n - n // 2, ["num", 1]], ["repeat", n // 2 - 1, ["num", 1]]]
+        elif kind == "script-size":
+            total = draw(st.sampled_from([9999, 10000, 10001]))
+            # pushes of 520 bytes (523 bytes each) dropped again, padded with NOPs... no: NOPs count as ops; pad with 1-byte pushes dropped in pairs
+            chunks = (total - 1) // 524
+            rest = total - 1 - chunks * 524
+            case["script"] = [["repeat", chunks, ["pushdrop", 520]], ["repeat", rest // 2, ["raw", "0075"]], ["repeat", rest % 2, ["raw", "61"]], ["num", 1]]
+        else:
+            nk = draw(st.sampled_from([19, 20, 21]))
+            case["script"] = [["num", 0], ["num", 0], ["repeat", nk, ["push", "02" + "11" * 32]], ["num", nk], ["op", "OP_CHECKMULTISIG"]]
+    else:
+        k = draw(st.integers(0, 3))
+        case["stack"] = [draw(st.sampled_from(TRUTHS + ["0102", "7f", "ffffff7f"])) for _ in range(k)]
+        case["script"] = draw(script_items(depth0=k))
+    return case
+
+
+def program_bytes(items) -> bytes:
+    out = b""
+    for it in items:
+        if it[0] == "repeat":
+            out += program_bytes([it[2]]) * it[1]
+        elif it[0] == "pushdrop":
+            out += cs.push_data(b"\xaa" * it[1]) + b"\x75"
+        else:
+            out += item_bytes(it)
+    return out
